@@ -31,14 +31,44 @@ CTC_LISTS = {'logical': 'get_logical_constraints', 'arithmetic': 'get_arithmetic
              'excludes': 'get_excludes_constraints', 'requires': 'get_requires_constraints'}
 
 
+import contextlib
+import os
+import signal
+
+CALL_LIMIT = float(os.environ.get('VERIF_CALL_LIMIT', '10'))
+
+
+class CallTimeout(BaseException):
+    pass
+
+
+def _on_alarm(signum, frame):
+    raise CallTimeout()
+
+
+@contextlib.contextmanager
+def time_limit(seconds=None):
+    """A library call that does not return within the limit is the outcome
+    error:Timeout (judged by the action's `total` clause), not a hang."""
+    seconds = seconds or CALL_LIMIT
+    old = signal.signal(signal.SIGALRM, _on_alarm)
+    signal.setitimer(signal.ITIMER_REAL, seconds)
+    try:
+        yield
+    finally:
+        signal.setitimer(signal.ITIMER_REAL, 0)
+        signal.signal(signal.SIGALRM, old)
+
+
 def errname(exc):
-    return type(exc).__name__
+    return 'Timeout' if isinstance(exc, CallTimeout) else type(exc).__name__
 
 
 def _call(errors, label, fn, default):
     try:
-        return fn()
-    except Exception as exc:  # the call's outcome is data, judged by a 'total' clause
+        with time_limit():
+            return fn()
+    except (Exception, CallTimeout) as exc:  # the call's outcome is data, judged by a 'total' clause
         errors.append(label + ':' + errname(exc))
         return default
 
@@ -223,11 +253,12 @@ def exec_op(obj, objid, op, model, naming, fobj=None, seqno=1):
     out = 'value'
     ret = empty_ret()
     try:
-        if op == 'ancestors':
-            obj.set_feature(fobj)
-        res = obj.execute(model).get_result()
+        with time_limit():
+            if op == 'ancestors':
+                obj.set_feature(fobj)
+            res = obj.execute(model).get_result()
         ret = project_result(op, res, naming)
-    except Exception as exc:
+    except (Exception, CallTimeout) as exc:
         out = 'error:' + errname(exc)
     post, anom = project(model, naming)
     return {'a': 'Exec', 'args': args, 'out': out, 'post': post, 'anom': anom, 'ret': ret}
